@@ -63,6 +63,11 @@ func (ex *Exec) call(st *State, in ssa.Instruction, c *ssa.CallCommon) (Value, b
 	if lockOp(name) != "" && len(args) == 1 && ex.lockCall(st, in, name, args[0].V) {
 		return Tu{}, false
 	}
+	if name == "sort.Slice" && len(c.Args) == 2 {
+		if v, ok := ex.sortSlice(st, in, c); ok {
+			return v, false
+		}
+	}
 	spec, cf := ex.db.fnSpec(callee)
 	sig := callee.Signature
 	if spec == nil {
